@@ -5,6 +5,11 @@ Batch == [n : 0..2, readN : {0, 1, 99}, replyJ : 0..2, failAt : {"never", "befor
 LockSteps == {[n |-> n, readN |-> 99, replyJ |-> 0, failAt |-> (IF k = 0 THEN "never" ELSE "afterReplies"), mode |-> "lockstep", failK |-> k] :
                 n \in 1..3, k \in 0..3} \ {s \in [n : 1..3, readN : {99}, replyJ : {0}, failAt : {"never", "afterReplies"}, mode : {"lockstep"}, failK : 0..3] : s.failK > s.n}
 AllScripts == Batch \cup LockSteps
+\* thorough tier: longer calls
+BigBatch == [n : 0..3, readN : {0, 1, 2, 99}, replyJ : 0..3, failAt : {"never", "before", "afterReplies", "afterEOF"}, mode : {"batch"}, failK : {0}]
+BigLock == {[n |-> n, readN |-> 99, replyJ |-> 0, failAt |-> (IF k = 0 THEN "never" ELSE "afterReplies"), mode |-> "lockstep", failK |-> k] :
+              n \in 1..4, k \in 0..4} \ {s \in [n : 1..4, readN : {99}, replyJ : {0}, failAt : {"never", "afterReplies"}, mode : {"lockstep"}, failK : 0..4] : s.failK > s.n}
+BigScripts == BigBatch \cup BigLock
 \* scripts on which the pinned tree is known to depart (first-message wait): a client stream without messages
 ZeroMsg == {s \in AllScripts : s.n = 0}
 OneScript == {[n |-> 2, readN |-> 99, replyJ |-> 1, failAt |-> "never", mode |-> "batch", failK |-> 0]}
